@@ -85,44 +85,42 @@ Theorem C08_round1_unique : forall t1 t2 n d, 0 < d ->
 Proof. exact nearest_even_unique. Qed.
 Print Assumptions C08_round1_unique.
 
-(* swap_memory(): total/free from SwapTotal/SwapFree (from sysinfo(2) when either is absent),
-   used = total-free, percent; sin/sout = cumulative swapped pages x page size, both 0 with a
-   warning when vmstat or the swap counters are absent.  The code converts pages with the literal
-   4096, hence the hypothesis on the page size. *)
+(* swap_memory(): for EVERY kernel record and page size the call succeeds and returns exactly the
+   demanded record -- total/free from SwapTotal/SwapFree (from sysinfo(2) when either is absent),
+   used = total-free, percent; sin/sout = cumulative swapped pages x page size = bytes; both 0 with a
+   warning when vmstat or the swap counters are absent.  (Code as of commit fe3ce75.) *)
 Theorem C08_swap_exact : forall k,
-  wf_kernel k = true -> k_pagesize k = 4096 ->
-  swap_memory (k_meminfo (k_mem k)) (k_sysinfo k) (option_map k_vmstat (k_vm k)) = Val (spec_swap k).
+  wf_kernel k = true ->
+  swap_memory (k_pagesize k) (k_meminfo (k_mem k)) (k_sysinfo k) (option_map k_vmstat (k_vm k))
+  = Val (spec_swap k).
 Proof. exact swap_exact. Qed.
 Print Assumptions C08_swap_exact.
 
-(* that hypothesis is needed: on a 64K-page kernel one swapped-in page is reported as 4096 bytes *)
-Theorem C08_swap_pagesize_sensitive :
+(* fixed finding: before fe3ce75 the code multiplied the page counts by the literal 4096
+   (model: multiplier 4096 instead of the page size); on a 64K-page kernel one swapped-in page
+   was reported as 4096 bytes instead of 65536 *)
+Theorem C08_swap_literal_4096_refuted :
   exists k r, wf_kernel k = true /\ k_pagesize k = 65536 /\
-    swap_memory (k_meminfo (k_mem k)) (k_sysinfo k) (option_map k_vmstat (k_vm k)) = Val r /\
+    swap_memory 4096 (k_meminfo (k_mem k)) (k_sysinfo k) (option_map k_vmstat (k_vm k)) = Val r /\
     s_sin r = 4096 /\ s_sin (spec_swap k) = 65536 /\ s_sout r = 8192 /\ s_sout (spec_swap k) = 131072.
-Proof. exact swap_pagesize_sensitive. Qed.
-Print Assumptions C08_swap_pagesize_sensitive.
+Proof. exact swap_literal_4096_refuted. Qed.
+Print Assumptions C08_swap_literal_4096_refuted.
 
-(* for every page size: the call succeeds; total, free, used, percent and the warning are the
-   demanded ones; with the warning sin = sout = 0 *)
-Theorem C08_swap_exact_any_pagesize : forall k, wf_kernel k = true ->
-  exists r, swap_memory (k_meminfo (k_mem k)) (k_sysinfo k) (option_map k_vmstat (k_vm k)) = Val r /\
-    s_total r = sw_total k /\ s_free r = sw_free k /\ s_used r = sw_total k - sw_free k /\
-    s_percent10 r = sw_percent10 k /\ s_warned r = s_warned (spec_swap k) /\
-    (s_warned r = true -> s_sin r = 0 /\ s_sout r = 0).
-Proof. exact swap_exact_any_pagesize. Qed.
-Print Assumptions C08_swap_exact_any_pagesize.
+(* whichever of vmstat / pswpin / pswpout is missing: success, sin = sout = 0 and the warning;
+   total, free, used unaffected.  (With only one counter missing the other is reported 0 too:
+   no kernel prints one without the other -- observation in notes/design/C08.md.) *)
+Theorem C08_swap_missing_counters : forall k r,
+  wf_kernel k = true ->
+  swap_memory (k_pagesize k) (k_meminfo (k_mem k)) (k_sysinfo k) (option_map k_vmstat (k_vm k)) = Val r ->
+  (k_vm k = None \/
+   (exists vs, k_vm k = Some vs /\ (vfind (bs "pswpin") vs = None \/ vfind (bs "pswpout") vs = None))) ->
+  s_sin r = 0 /\ s_sout r = 0 /\ s_warned r = true /\
+  s_total r = sw_total k /\ s_free r = sw_free k /\ s_used r = sw_total k - sw_free k.
+Proof. exact swap_missing_counters. Qed.
+Print Assumptions C08_swap_missing_counters.
 
+(* free <= total  ->  0 <= percent <= 100 *)
 Theorem C08_swap_range : forall k,
   0 <= sw_free k <= sw_total k -> 0 <= sw_percent10 k <= 1000.
 Proof. exact swap_range. Qed.
 Print Assumptions C08_swap_range.
-
-(* observation: when vmstat has pswpin but not pswpout the code reports 0 for both *)
-Theorem C08_swap_one_sided_zeroes_both : forall k vs i,
-  wf_kernel k = true -> k_vm k = Some vs ->
-  vfind (bs "pswpin") vs = Some i -> vfind (bs "pswpout") vs = None ->
-  exists r, swap_memory (k_meminfo (k_mem k)) (k_sysinfo k) (option_map k_vmstat (k_vm k)) = Val r /\
-            s_sin r = 0 /\ s_sout r = 0 /\ s_warned r = true.
-Proof. exact swap_one_sided_zeroes_both. Qed.
-Print Assumptions C08_swap_one_sided_zeroes_both.
